@@ -12,12 +12,14 @@ Variable data : Type.
 Variable zero : data.
 Variable lock : N.
 Variable midcheck : bool.
+Variable postcopy : bool.
+Variable recheck : bool.
 
 Local Notation state := (state data).
 Local Notation restoreL := (restore data zero lock).
 Local Notation txs_ok := (txs_ok data lock).
 Local Notation tx_ok := (tx_ok data lock).
-Local Notation step := (step data lock midcheck).
+Local Notation step := (step data lock midcheck postcopy recheck).
 Local Notation label_ok := (label_ok data lock).
 
 Ltac simp := cbn -[restore flen apply ltx_snapshot ltx_incremental view dbfile firstn skipn].
@@ -344,6 +346,9 @@ Proof.
       apply inv_set_pc. eapply inv_do_sync; eauto.
     + destruct (do_sync data lock s k) eqn:Ed; [|discriminate]. inversion E; subst.
       apply inv_set_pc. eapply inv_do_sync; eauto.
+    + destruct (needs_post postcopy m rb); [|discriminate].
+      destruct (do_sync data lock s k) eqn:Ed; [|discriminate]. inversion E; subst.
+      apply inv_set_pc. eapply inv_do_sync; eauto.
     + destruct (do_sync data lock s k) eqn:Ed; [|discriminate]. inversion E; subst.
       apply inv_set_pc. eapply inv_do_sync; eauto.
   - destruct (pc data s); try discriminate. destruct (l0 data s) eqn:El; [discriminate|].
@@ -352,14 +357,14 @@ Proof.
     apply Nat.eqb_eq in E1, E2. apply inv_add_ack; assumption.
   - destruct (pc data s); try discriminate. destruct (phys data s); [discriminate|].
     destruct (opened data s); [|discriminate]. inversion E; subst. apply inv_set_pc. exact H.
-  - destruct (pc data s) as [| |m0 hg0| | | | | | | | | |]; try discriminate.
+  - destruct (pc data s) as [| |m0 hg0| | | | | | | | | | | |]; try discriminate.
     + destruct m0; try discriminate. inversion E; subst. apply inv_set_wlock, inv_set_pc. exact H.
     + inversion E; subst. apply inv_set_wlock, inv_set_pc. exact H.
-  - destruct (pc data s) as [| |m0 hg0| |hg0| | | | | | | |]; try discriminate.
+  - destruct (pc data s) as [| |m0 hg0| |hg0| | | | | | | | | |]; try discriminate.
     + destruct (mode_eqb m0 Passive); [discriminate|]. inversion E; subst.
       apply inv_set_mark, inv_set_pc. exact H.
     + inversion E; subst. apply inv_set_mark, inv_set_pc. exact H.
-  - destruct (pc data s) as [| | | | |m0 hg0 pre0| | | | | | |]; try discriminate.
+  - destruct (pc data s) as [| | | | |m0 hg0 pre0| | | | | | | | |]; try discriminate.
     destruct (ls_mark data s); [discriminate|].
     destruct m0.
     + destruct ((backfilled data s <=? j) && (j <=? length (txs data s))) eqn:Ej; [|discriminate].
@@ -374,11 +379,15 @@ Proof.
   - destruct (pc data s); try discriminate. destruct (ls_mark data s); [discriminate|].
     inversion E; subst. apply inv_set_mark. exact H.
   - destruct (pc data s); try discriminate. destruct (ls_mark data s); [|discriminate].
-    inversion E; subst. apply inv_set_wlock, inv_set_pc. exact H.
+    inversion E; subst. apply inv_set_pc. exact H.
+  - destruct (pc data s); try discriminate.
+    + destruct (needs_post postcopy m rb); [discriminate|].
+      inversion E; subst. apply inv_set_wlock, inv_set_pc. exact H.
+    + inversion E; subst. apply inv_set_pc. exact H.
   - destruct (pc data s); try discriminate.
     destruct (do_commit data s t restart) eqn:Ed; [|discriminate]. inversion E; subst.
     apply inv_set_pc. eapply inv_do_commit; eauto.
-  - destruct (pc data s) as [| | | | | | | |m0 hg0 pre0 wn0 rb0| | | |]; try discriminate.
+  - destruct (pc data s) as [| | | | | | | | | |m0 hg0 pre0 wn0 rb0| | | |]; try discriminate.
     destruct (ck_decide m0 hg0 (gen data s) pre0 wn0 rb0); inversion E; subst; apply inv_set_pc; exact H.
   - destruct (pc data s); try discriminate. destruct (phys data s) eqn:Ep; [discriminate|].
     inversion E; subst. apply inv_set_wlock, inv_set_pc, inv_snapshot; [exact H|].
